@@ -137,6 +137,15 @@ const SPECIAL_CHARS: &[char] = &[
 ];
 
 fn gen_char(rng: &mut Rng) -> char {
+    if rng.chance(1, 16) {
+        // any Unicode scalar value (the XID_CONTINUE answer comes from the real grammar)
+        loop {
+            let cp = if rng.chance(1, 2) { rng.range(0x80, 0xffff) } else { rng.range(0x10000, 0x10ffff) };
+            if let Some(c) = char::from_u32(cp as u32) {
+                return c;
+            }
+        }
+    }
     match rng.below(10) {
         0..=3 => *rng.pick(IDENT_CHARS),
         4..=5 => *rng.pick(SEP_CHARS),
